@@ -63,6 +63,17 @@ def run(ctx):
     hs.append("- - - setcfg!1:2:03!-/append!195:02|05|1|0/setcfg!1:2:04!-/derivea!-!0/derivea!-!1/derivea!-!0")
     ctx.correspond(["hist " + h for h in hs], "hist")
     ctx.check_props(["prop.c11 " + h for h in hs], "prop.c11")
+    # the same histories with "write the file, go on with what is read back" steps in between (real code only)
+    hw = []
+    for h in hs[: (150 if ctx.quick else 5000)]:
+        cm, init, blocks, ops = h.split(" ")
+        ol = ops.split("/")
+        for _ in range(rng.choice([1, 2, 3])):
+            ol.insert(rng.randrange(len(ol) + 1), "rw")
+        if rng.random() < 0.5:
+            ol += ["rw", "rw"]
+        hw.append(f"{cm} {init} {blocks} {'/'.join(ol)}")
+    ctx.check_props(["prop.c11 " + h for h in hw], "prop.c11-write-read")
 
 
 def search(ctx):
